@@ -43,16 +43,25 @@ class C04(EngineProp):
             """StopEvent returned while other workers are about to publish: the 'nothing after the terminal event' clause."""
             d = draw(st.sampled_from([0, 1, 1, 2]))
             ys = lambda: [["sleep", 0]] * draw(st.integers(0, 4))  # noqa: E731
+            n0 = draw(st.integers(1, 2))
+            via = draw(st.sampled_from(["plain", "plain", "collect", "wait"]))
+            stopper = [["sleep", d]] + ys() + [["ret", draw(st.sampled_from(["GStop", "GStop", "nonevent"]))]]
+            ext = []
+            if via == "collect":
+                n0 = 2
+                stopper = [["collect", ["E0", "E0"], None]] + stopper
+            elif via == "wait":
+                stopper = [["wait", "Reply", {}, "auto", None, False, "continue"]] + stopper
+                ext = [[draw(st.sampled_from([0, 1, 2])), "send", "Reply", None, {}]]
             steps = [
                 {"name": "a", "accepts": ["GStart"], "workers": 1, "retry": None,
-                 "acts": {"GStart": [["send", "E0", draw(st.integers(1, 2)), None], ["send", "E1", draw(st.integers(1, 3)), None], ["ret", None]]}},
-                {"name": "b", "accepts": ["E0"], "workers": draw(st.integers(1, 2)), "retry": None,
-                 "acts": {"E0": [["sleep", d]] + ys() + [["ret", draw(st.sampled_from(["GStop", "GStop", "nonevent"]))]]}},
-                {"name": "c", "accepts": ["E1"], "workers": draw(st.integers(1, 3)), "retry": None,
-                 "acts": {"E1": [["sleep", draw(st.sampled_from([d, d, 0, 1]))]] + ys() + [["stream", "Note"]] + ys() + [["stream", "Note"], ["sleep", draw(st.sampled_from([0, 1, 5]))], ["ret", None]]}},
+                 "acts": {"GStart": [["send", "E0", n0, None], ["send", "E1", draw(st.integers(1, 3)), None], ["ret", None]]}},
+                {"name": "b", "accepts": ["E0"], "workers": draw(st.integers(1, 2)), "retry": None, "acts": {"E0": stopper}},
+                {"name": "c", "accepts": ["E1"], "workers": draw(st.integers(1, 3)), "retry": None, "cancel_note": draw(st.booleans()),
+                 "acts": {"E1": [["sleep", draw(st.sampled_from([d, d, 0, 1, 3]))]] + ys() + [["stream", "Note"]] + ys() + [["stream", "Note"], ["sleep", draw(st.sampled_from([0, 1, 5]))], ["ret", None]]}},
                 {"name": "fin", "accepts": ["Fin"], "workers": 1, "retry": None, "acts": {"Fin": [["ret", "GStop"]]}},
             ]
-            return {"steps": steps, "timeout": None, "ext": [], "ties": draw(st.lists(st.integers(0, 7), max_size=6))}
+            return {"steps": steps, "timeout": None, "ext": ext, "ties": draw(st.lists(st.integers(0, 7), max_size=6))}
 
         return st.one_of(with_policy_faults(), with_policy_faults(), stop_race())
 
